@@ -402,6 +402,17 @@ func (l *Lexer) scanCommodityOrText() Token {
 	return l.scanText()
 }
 
+// RescanText re-reads the input from the start of tok as free text up to the end
+// of the line, a comment or a '|'. The parser uses it for transaction
+// descriptions, whose first word may look like a commodity, number or account.
+func (l *Lexer) RescanText(tok Token) Token {
+	l.pos = tok.Pos.Offset
+	l.line = tok.Pos.Line
+	l.column = tok.Pos.Column
+	l.atStart = false
+	return l.scanText()
+}
+
 func (l *Lexer) scanText() Token {
 	start := l.pos
 	startPos := l.position()
